@@ -222,6 +222,8 @@ def oracle(case, out):
     ncols = len(case["cols"])
     if out["pixels"] != exp:
         bad.append(("pixels()[:]", exp[:12], out["pixels"][:12]))
+    if out["raw"] != exp:      # stored columns hold exactly the records (regression D21: length equals nnz)
+        bad.append(("raw HDF5 pixel columns", exp[:12], out["raw"][:12]))
     if out["pixel_columns"][:2] != ["bin1_id", "bin2_id"] or sorted(out["pixel_columns"][2:]) != sorted(c[0] for c in case["cols"]):
         bad.append(("pixel table columns", [c[0] for c in case["cols"]], out["pixel_columns"]))
     if out["nnz"] != len(exp) or out["info_nnz"] != len(exp):
@@ -475,8 +477,17 @@ def gen_cases(ctx):
             case["cuts"] = random_cuts(rng, len(rows))
         cases.append(case)
 
+    # C2. fixed corpus: edge-case metadata documents; regression inputs of repaired defect D21 (empty streams)
+    for t, md in enumerate([{}, [], [1, {"a": None}], 0, "", False, "abc", {"": ""}, {"a": {"b": {"c": [[], {}, [{}]]}}}, 1.5, [None],
+                            {"format": "HDF5::Cooler", "nnz": -1, "metadata": "{}"}, {"big": 2 ** 70, "neg": -2 ** 63, "f": 1e-300}]):
+        cases.append({"grp": "metadata", "widths": [[4, 4, 1]], "symm": bool(t % 2), "cols": DEFAULT_COLS, "rows": [[0, 0, [2]], [1, 2, [3]]],
+                      "form": ["dict", "frame", "chunks"][t % 3], "cuts": [1, 1], "metadata": md})
+    for cuts, forms in (([], []), ([0], ["df"]), ([0], ["dict"]), ([0, 0], ["df", "dict"])):
+        cases.append({"grp": "regression-D21", "widths": [[5, 5, 2]], "symm": True, "cols": DEFAULT_COLS, "rows": [], "form": "chunks",
+                      "cuts": cuts, "chunkforms": forms})
+
     # F. assembly names (known finding D13 is exercised on every run by "123", "true", "null")
-    for w in ASSEMBLY_WORDS + ["", " 12 ", "[1]", "{}", "\"q\"", "1.5", "hg 19"]:
+    for w in ASSEMBLY_WORDS + ["", " 12 ", "[1]", "{}", "\"q\"", "1.5", "hg 19", " hg19", "hg19 ", "hg19\n", "\tmm10", "HG19", "nul", "tru e"]:
         cases.append({"grp": "assembly", "widths": [[5, 3]], "symm": True, "cols": DEFAULT_COLS, "rows": [[0, 1, [3]]], "form": "dict", "assembly": w})
     return cases
 
